@@ -283,7 +283,7 @@ func (e *env) settleStarts() error {
 	if !e.checked {
 		found := false
 		for _, p := range e.clk.Pending() {
-			if strings.Contains(p.Owner, vacOwner) && strings.Contains(p.Owner, "vacuumInBackground") {
+			if strings.Contains(p.Owner, vacOwner) { // any function of the vacuum package: how its loop is called is its own business
 				found = true
 			}
 		}
